@@ -59,6 +59,8 @@ BLOCKS = {
     'iterator-prefix-names': ("x = 2.\nNEW_x = 5.\nz = NEW_x + 1.\nErr_Tolerance = 0.01\nMaxTime = 2", 0.0, [], []),
     # division by a constant that is itself computed (b = a*2): its k=0 value is 0 in the module, and the module's sweep has no step-over for a transient 1/0
     'division-by-computed-constant': ("a = 2.\nb = a*2\nc = 1/b\nErr_Tolerance = 0.01\nMaxTime = 2", 0.0, [], []),
+    # an exogenous scalar written with one of the functions the parser allows in equations (abs, max, min, ...)
+    'scalar-builtin-exogenous': ("x = 0.5*x + G + S\nErr_Tolerance = 0.01\nMaxTime = 2\nexogenous\nG = [1., 2., 3.]\nS = abs(-20.) + max(1., 2.)", 0.5, ['x'], ['G']),
     'static-user-time': ("x = 0.5*y + c\ny = 0.5*x + 1\nc = 2.0\nt = 2016.\nErr_Tolerance = 0.01\nMaxTime = 2", 0.5, ['x', 'y'], []),
 }
 
@@ -102,7 +104,8 @@ def stated_exogenous(parser, symbolic):
     for v, e in parser.Exogenous:
         if v in symbolic:
             continue
-        val = eval(e.strip(), {'__builtins__': {}}, dict(vars(math)))
+        import builtins as _b
+        val = eval(e.strip(), {'__builtins__': {n: getattr(_b, n) for n in ('float', 'max', 'min', 'sum', 'pow', 'abs', 'round')}}, dict(vars(math)))
         out[v] = [float(val)] * 3 if isinstance(val, (int, float)) else [float(x) for x in val]
     return out
 
